@@ -101,11 +101,41 @@ def walk(e):
     elif e[0] == 'f':
         for x in e[2:]:
             yield from walk(x)
+    elif e[0] in ('u', 'x'):      # union (a,b) / intersection (a b)
+        for x in e[1:]:
+            yield from walk(x)
 
 
 def refs_of(e):
     """List of reference / name nodes in order of appearance."""
-    return [x for x in walk(e) if x[0] in ('r', 'nm')]
+    out = []
+
+    def rec(x):
+        k = x[0]
+        if k in ('r', 'nm'):
+            out.append(x)
+        elif k == 'x' and all(y[0] == 'r' for y in x[1:]):
+            # only the common cells are referred to - none at all when the
+            # areas do not meet (#NULL!, decided without reading any cell)
+            a = x[1]
+            for y in x[2:]:
+                if a is None or a[1:3] != y[1:3]:
+                    a = None
+                    break
+                r1, c1 = max(a[3], y[3]), max(a[4], y[4])
+                r2, c2 = min(a[5], y[5]), min(a[6], y[6])
+                a = ['r', a[1], a[2], r1, c1, r2, c2] \
+                    if r1 <= r2 and c1 <= c2 else None
+            if a is not None:
+                out.append(a)
+        elif k in ('op', 'f'):
+            for y in x[2:]:
+                rec(y)
+        elif k in ('u', 'x'):
+            for y in x[1:]:
+                rec(y)
+    rec(e)
+    return out
 
 
 def rect_cells(ref):
@@ -184,6 +214,10 @@ class Renderer:
             return self.lit(e)
         if k == 'raw':
             return e[1]
+        if k == 'u':      # reference union: every area counts, overlaps twice
+            return '(%s)' % ','.join(self.render(x, host) for x in e[1:])
+        if k == 'x':      # reference intersection
+            return ' '.join(self.render(x, host) for x in e[1:])
         if k == 'un':     # a name that is defined nowhere
             if self.mode == 'dict':
                 return "'[%s]'!%s" % (self.p.file(host[0]), e[1])
